@@ -121,6 +121,11 @@ def run(d, checks=None, tier="quick", seed=None):
     finally:
         drop(wt)
         shutil.rmtree(os.path.join(SCRATCH, "evidence-" + name), ignore_errors=True)
+        import hashlib
+        tag = hashlib.sha1(os.path.abspath(wt).encode()).hexdigest()[:10]
+        shutil.rmtree(os.path.join(VERIF, ".target-alt", tag), ignore_errors=True)
+        shutil.rmtree(os.path.join(VERIF, ".target", "bin", tag + "-debug"), ignore_errors=True)
+        shutil.rmtree(os.path.join(VERIF, ".target", "bin", tag + "-release"), ignore_errors=True)
     return out_rows
 
 
